@@ -49,11 +49,14 @@ def cases(draw):
   special = None
   if phases and draw(st.integers(0, 3)) == 0:
     special = [draw(st.sampled_from(['overlap', 'overlap', 'abort'])), phases[draw(st.integers(0, len(phases) - 1))]['id']]
-  if draw(st.integers(0, 9)) == 0 and phases:
-    prog['plugs'] = [{'ctor': draw(st.sampled_from(['ok', 'raise'])), 'td': draw(st.sampled_from(['ok', 'raise']))}]
+  ptt = 0.05
+  if draw(st.integers(0, 4)) == 0 and phases:
+    prog['plugs'] = [{'ctor': draw(st.sampled_from(['ok', 'ok', 'raise'])), 'td': draw(st.sampled_from(['ok', 'ok', 'raise']))}]
     phases[0]['plugs'] = [['pl', 0, True]]
+    # the configuration key that bounds plug tearDown, also left empty in the station's YAML (None) or set to "no limit" (0)
+    ptt = draw(st.sampled_from([0.05, 0.05, None, 0]))
   return {'prog': prog, 'runs': draw(st.sampled_from([1, 1, 2, 3])), 'special': special,
-          'set_dut': draw(st.sampled_from([None, None, 'DUT7']))}
+          'set_dut': draw(st.sampled_from([None, None, 'DUT7'])), 'ptt': ptt}
 
 
 def completeness(rec, default_dut='UNKNOWN_DUT'):
@@ -81,7 +84,7 @@ def completeness(rec, default_dut='UNKNOWN_DUT'):
 def check(case):
   r = CaseResult()
   prog = case['prog']
-  htf = ohtf.reset_case(cancel_timeout_s=0.05, plug_teardown_timeout_s=0.05, **progs.conf_values(prog))
+  htf = ohtf.reset_case(cancel_timeout_s=0.05, plug_teardown_timeout_s=case.get('ptt', 0.05), **progs.conf_values(prog))
   from openhtf.util import configuration  # pylint: disable=g-import-not-at-top
   if _BASE['threads'] is None:
     _BASE['threads'] = threading.active_count()
@@ -145,7 +148,8 @@ def check(case):
     if first and first[0]['id'] not in ctx.hooks:
       ctx.hooks[first[0]['id']] = lambda test_api, inv, plugs: setattr(test_api, 'dut_id', case['set_dut'])
   nontrivial = bool(sum(cbspec)) or case['runs'] > 1 or bool(special)
-  classes = ['cbs:%d' % len(cbspec), 'raising:%d' % sum(cbspec), 'runs:%d' % case['runs']] + (['special:' + special[0]] if special else [])
+  classes = ['cbs:%d' % len(cbspec), 'raising:%d' % sum(cbspec), 'runs:%d' % case['runs']] + (['special:' + special[0]] if special else []) + (
+      ['plug_teardown_timeout_s:%s' % case.get('ptt')] if prog.get('plugs') else [])
   summaries = []
   if 'vf_c09_probe' not in configuration.CONF._declarations:  # pylint: disable=protected-access
     configuration.CONF.declare('vf_c09_probe')   # no default: present in the snapshot only while a value is loaded
